@@ -62,7 +62,7 @@ for _pid, _what in {
 _DED = {
     "C01": "Discharged for all inputs (non-pruning configuration; ideal-hash reading): the read path -- get_node, _traverse_extension, _traverse_from (loop invariant with a ghost key suffix), _traverse, _get, get, exists, __getitem__, __contains__: get(k) = hlk(root node, nibbles(k)) on every database, raising only MissingTrieNode; and the write path -- _set, _delete, _normalize_branch_node (helpers _set_kv_node / _set_branch_node / _delete_kv_node / _delete_branch_node executed inside those units), _set_root_node, set, delete, __setitem__, __delitem__: after the call the root denotes the old mapping with k -> v (k removed for delete / set-to-empty), for an arbitrary probe key. The induction over histories is the composition of these per-call contracts. Reference counting of pruning tries (C06) and iteration over batches are not part of these units: squash_changes is under contract with the client block abstracted (C05); what pruning removes is decided by the bounded stand-in.",
     "C02": "Discharged: the write path preserves the full canonical form hwfp (extension only over a branch, no empty paths, every branch has at least two entries, a child is embedded iff its rlp is shorter than 32 bytes) -- clauses `well-formed` of _set / _delete / _normalize_branch_node; the reference rule (_create_node_to_db_mapping), the root rule (_set_root_node / _set_raw_node: root always hashed, blank root = BLANK_NODE_HASH), _persist_node, hex-prefix encoding = Yellow-Paper HP with round trip. Lean (H.lean): a canonical trie is unique for its contents and the Yellow-Paper construction yields it; together: root = YP root of the contents. The link `hwfp + view => equals the YP trie` is the Lean theorem, not a pyvc obligation.",
-    "C03": "Discharged: soundness of get_from_proof -- for an arbitrary finite list of well-formed nodes offered as proof (loop over the proof with the scratch database under the store invariant) and an arbitrary root, the call returns hlk(root node, nibbles(key)), the value the root denotes in the ideal-hash reading, or raises BadTrieProof; get (the lookup it evaluates) as in C01. Completeness (get_from_proof(root, key, get_proof(key)) = get(key)), `only nodes on the key's path` and `BadTrieProof whenever a path node is withheld` are bounded only (_get_proof is not under contract).",
+    "C03": "Discharged: soundness of get_from_proof -- for an arbitrary finite list of well-formed nodes offered as proof (loop over the proof with the scratch database under the store invariant) and an arbitrary root, the call returns hlk(root node, nibbles(key)), the value the root denotes in the ideal-hash reading, or raises BadTrieProof; get (the lookup it evaluates) as in C01. The consumer's half of completeness: every offered node is in the scratch database when the lookup starts (loop invariant at an arbitrary ghost position of the proof), and BadTrieProof is raised only while handling a MissingTrieNode whose hash is the hash of *no* offered node and which sits on the key's path below the claimed root (view equation for an arbitrary continuation) -- so any proof that holds every hashed node of the key's path is accepted and yields get(key). The producer's half (get_proof returns exactly the nodes on the key's path; _get_proof is not under contract) is bounded only.",
     "C04": 'Discharged: every store write of _persist_node / _set_raw_node / _set_root_node is content-addressed and leaves an existing entry unchanged (store-write obligations at every db[k] = v reached in _set / _delete / set / delete), `store-only-grows` postconditions of the write path, squash_changes on a non-pruning trie (commit applies no deletes; an aborted block or a failing write leaves every old entry), _complete_pruning is a no-op without pruning, ScratchDB never writes the wrapped store while a batch is open, at_root yields a non-pruning snapshot over the same database at the requested root and leaves the trie untouched. That old roots stay *readable* follows from `store only grows` and the ideal-hash reading (what a root denotes does not depend on the database); several tries sharing one database are bounded only.',
     "C05": "Discharged: squash_changes with the client block modelled as an arbitrary sequence of operations on the batch trie (havoc of the batch trie constrained by its own contracts): normal exit adopts the batch root and commits the buffered writes (deletes only when pruning), exceptional exit and a failing write during commit leave root, store entries and reference counts as before; ScratchDB.batch_commit all-or-nothing. `no node that served only intermediate states is added` is bounded only.",
     "C06": "Discharged (for an arbitrary node hash g, ghost): the exactness invariant of a pruning trie -- count(g) = RC(root, g) = [root = g] + hrefs(node(root), g) (the number of references to g in the tree unfolding of the trie, what regenerate_ref_count recomputes) and `g is stored <=> count(g) >= 1` -- is preserved by set and delete (units set#pruning / delete#pruning), through: count-delta contracts of the recursive write path (_set / _delete / _normalize_branch_node on a pruning trie: count - pending changes by hrefs(result) - hrefs(argument) - [argument is g]; a node enters the store exactly when it is counted), _set_root_node#pruning (new root counted, a too-small old root marked), _prune_node, _persist_node / _set_raw_node counting with frames, _complete_pruning (dictionary-loop invariant: every pending prune applied exactly), squash_changes adopting the batch's counts. A failing set / delete leaves the counts untouched. Not discharged: that hrefs is what regenerate_ref_count computes (its work-list loop is not under contract), exactness across squash_changes batches as a whole (the batch trie's own operations are the same units, the composition is bounded), the initial state.",
@@ -77,7 +77,7 @@ _DED = {
     "C18": 'Discharged: 53 entry points of HexaryTrie (incl. get_from_proof, traverse, traverse_from), BinaryTrie, SparseMerkleTree, calc_root, SparseMerkleProof, the fog and the branch helpers raise the stated exception on ill-typed / ill-sized arguments (and a reference count handed to a non-pruning trie, a snapshot from a pruning trie, a key size outside 1..32) before any field, database entry or reference count is written.',
     "C10": "Discharged: NodeIterator._get_next_key (recursive; through traverse_from and its one-hop clause) returns traversed ++ kmin(node) -- kmin: a leaf's path, () at a branch with a value, otherwise the extension path / the first occupied nibble followed by the first key of that child -- or None when the node holds no key; kmin(node) is a key the node really stores and it is the *least* one: for an arbitrary probe key, stored => not smaller (definitional unfolding of the lexicographic order, instances of the Lean theorems Fog.lt_irrefl and Fog.lt_append_left, lemma first_is_first); next() without a key returns the byte string whose nibbles are kmin(root), a stored key with no stored key smaller, and None on the empty trie. Lemmas first_child / branch_step / prefix_first / unit_first / first_is_first proved once. Not discharged: next(k) = strict successor (_get_key_after), keys / items / values / nodes generators -- bounded only; the order of byte keys equals the order of their nibble sequences is the Lean theorem Fog.nibs_lt.",
     "C11": 'Discharged: HexaryTrieFog.__init__ (only the root prefix is unexplored), is_complete (true exactly when nothing is left), mark_all_complete (loop invariant: exactly the listed prefixes are removed, from a copy -- the receiver is never modified; an unknown prefix is refused), nearest_right / nearest_unknown (the answer is a member of the unexplored set, for nearest_right the prefix containing the key or one to its right; PerfectVisibility / FullDirectionalVisibility exactly when nothing is left / nothing to the right), _prefix_distance (element-wise differences with 15 / 0 padding). sortedcontainers.SortedSet, itertools.zip_longest and map are modelled as assumed library contracts. explore() (with its nested validation loops), serialize / deserialize, the antichain invariant and order independence (Lean F.lean) are bounded only.',
-    "C09": 'Discharged: the library functions a fog-guided walk calls -- traverse, traverse_from (incl. one hop from a cached node reaches exactly its child), annotate_node, TraversedPartialPath and its simulated node (a node that describes the remainder: the enclosing leaf / extension with the tail cut off, same lookups below it), HexaryTrieFog.nearest_right / nearest_unknown (the answer is an unexplored prefix), mark_all_complete, is_complete. Lean F.lean walk_step: one step of the walk preserves `every key is either met or under an unexplored prefix`. Not discharged by this technique: explore(), TrieFrontierCache, the walk as a whole over a changing trie (a property of histories of client steps), and termination -- bounded only.',
+    "C09": 'Discharged: the library functions a fog-guided walk calls -- traverse, traverse_from (incl. one hop from a cached node reaches exactly its child), annotate_node, TraversedPartialPath and its simulated node (a node that describes the remainder: the enclosing leaf / extension with the tail cut off, same lookups below it), HexaryTrieFog.nearest_right / nearest_unknown (the answer is an unexplored prefix), mark_all_complete, is_complete. Lean F.lean walk_step: one step of the walk preserves `every key is either met or under an unexplored prefix`. TrieFrontierCache.__init__ / get / add / delete against a map view (nibble tuple -> (node, segment), arbitrary probe key): get answers what the last add that listed the prefix stored, KeyError otherwise; add(P, n, segs) enters P + s -> (n, s) for every listed s (loop invariant), drops P's own entry unless P is the root prefix or is listed again, leaves every other entry alone; delete removes exactly one entry; and the representation invariant `the cached segment is a suffix of its key` (what makes traverse_from(node, segment) end at the key's prefix) is kept by all of them. Not discharged by this technique: explore(), the walk as a whole over a changing trie (a property of histories of client steps), and termination -- bounded only.',
 }
 for _pid, _t in _DED.items():
     PROPERTY_TEXT[_pid]["level_text"] = PROPERTY_TEXT[_pid]["level_text"] + " DEDUCTIVE PART: " + _t
